@@ -69,7 +69,16 @@ pub fn be_preferred_address(input: &[u8]) -> nom::IResult<&[u8], PreferredAddres
     })
     .parse(input)?;
 
-    let (input, connection_id) = be_connection_id(input)?;
+    let (remain, connection_id) = be_connection_id(input)?;
+    // A server MUST NOT include a zero-length connection ID in this transport parameter,
+    // and a client MUST treat a violation as a TRANSPORT_PARAMETER_ERROR (RFC 9000 §18.2).
+    if connection_id.is_empty() {
+        return Err(nom::Err::Error(nom::error::make_error(
+            input,
+            nom::error::ErrorKind::Verify,
+        )));
+    }
+    let input = remain;
     let (input, stateless_reset_token) = be_reset_token(input)?;
 
     Ok((
